@@ -201,9 +201,9 @@ def d_transform_lens(name, seed, base):
 
 
 def d_longnames(name, seed, base):
-    """victims whose file name is 231..255 bytes long: <name>.<24 random characters> exceeds NAME_MAX, so the replace-by-link
-    commands cannot park the victim under its temporary name (N8).  Whatever happens then, `bash script` and the real run must
-    leave the same tree."""
+    """victims whose file name is 231..255 bytes long: <name>.<24 random characters> would exceed NAME_MAX; since fix d75e85d
+    (former finding N8) the temporary name is built from a shortened stem, in the printed script as in the real run: both
+    process every victim, `bash script` and the real run leave the same tree, the counts agree."""
     rng = core.SplitMix64(seed)
     s = X.Scn(name, seed, base)
     s.roots = [os.path.join(s.treedir, b"r0")]
@@ -428,8 +428,9 @@ def run_case(model, scratch, kind, idx, seed):
                  not X.entry_same(inv0.get(X.resolve(inv0, p)), invB.get(X.resolve(inv0, p)))
                  for g in groups for p in g["files"])
     n6sig = {"kind": "symlink_victim_after_its_target"}
-    # N8: the temporary name <victim>.<24 random characters> of a victim whose own name is longer than 230 bytes exceeds NAME_MAX:
-    # the real run fails for that victim (File name too long) and does not count it, the dry run prints and counts it
+    # former N8 (repaired by d75e85d; the signature is no longer a listed finding, so a regression is reported): the temporary
+    # name <victim>.<24 random characters> of a victim whose own name is longer than 230 bytes exceeded NAME_MAX, the real run
+    # failed for that victim (File name too long) and did not count it, the dry run printed and counted it
     n8 = s.op in ("link", "softlink", "dedupe") and b"File name too long" in rerr and \
         any(len(os.path.basename(v)) > 230 for v in script_victims)
     if n8:
